@@ -242,6 +242,15 @@ def check_grid(alg, N, tier="quick", seed=0):
             if pats["border_len"][i, j] and one[k] and abs(B[i, j] - est) > 4.5 * se + 0.03 * est:
                 fail("d-border-mc", f"pair=({i},{j}) border {B[i, j]!r} vs Monte-Carlo face area {est!r} +- {se:.2g}")
             stats.setdefault("mc", []).append({"pair": [i, j], "sign": "+-"[s], "analytic": float(ex), "mc": float(est), "se": float(se)})
+    # ---- history: a caller's in-place change of a returned matrix (as get_full_prefactors does) must not show in later requests
+    if N % 3 == 0:
+        from .common import caller_mutation_visible
+        with quiet():
+            bad = caller_mutation_visible({p: (lambda p=p: v._calculate_N_N_array(sel_property=p)) for p in PROPS} |
+                                          {"volumes": v.get_voronoi_volumes})
+        count("history: later requests do not see a caller's in-place change of an earlier result (per grid)")
+        if bad:
+            fail("history-aliasing", f"getters {bad} hand out a buffer that later requests return again (changed by the caller in between)")
     return {"fails": fails, "counts": counts, "stats": stats}
 
 
